@@ -580,7 +580,7 @@ CasesA == UNION {{[tpl |-> tpl, slots |-> <<[fl |-> fl, t |-> t, ix |-> ix]>>] :
                     tpl \in Templates1, fl \in {-1, 8}, ix \in OkIx[t]} : t \in Types}
 \* ---- generator B: every two-lookup program, one rule each from the reduced universe ("red" slots)
 CasesB == {[tpl |-> tpl, slots |-> <<[fl |-> fx, t |-> "red", ix |-> <<i>>], [fl |-> fy, t |-> "red", ix |-> <<j>>]>>] :
-             tpl \in Templates2, fx \in {-1, 8}, fy \in {0, 8}, i \in 1..Len(Reduced), j \in 1..Len(Reduced)}
+             tpl \in Templates2, fx \in {-1, 8}, fy \in {-1, 0, 8}, i \in 1..Len(Reduced), j \in 1..Len(Reduced)}
 
 SlotOf(s) == Slot(s.fl, [k \in 1..Len(s.ix) |-> IF s.t = "red" THEN Reduced[s.ix[k]] ELSE Univ[s.t][s.ix[k]]])
 ProgOf(c) == Build(c.tpl, [k \in 1..Len(c.slots) |-> SlotOf(c.slots[k])])
